@@ -103,19 +103,19 @@ func CompareRaster(h *Header, s *RasterScene, spaces []int) (ms []core.Mismatch)
 				}
 				var sig string
 				switch {
-				case len(s.NZ) > 0 && s.NZ[y][x] != code && pixelOK(h, s.NZ[y][x], got, sp):
-					// the pixel is what the frame demands when every rule is read as NonZero
-					if s.Feat["posnegopen"] {
-						sig = "raster-fillrule-positive-negative-open-subpath:rules-differ-on-pixel"
-					} else {
-						sig = "raster-fillrule-ignored:rules-differ-on-pixel"
-					}
 				case x == 0 && s.Feat["left"]:
 					sig = "raster-pixel:column-0:region-crosses-left-border"
 				case y == 0 && s.Feat["top"]:
 					sig = "raster-pixel:row-0:region-crosses-top-border"
 				case s.Feat["selfx"]:
+					// scene-level: a missing piece of the stroke may also expose the paint underneath
 					sig = "raster-stroke:closed-self-intersecting-path"
+				case s.Feat["posnegopen"]:
+					// scene-level: Settle of a path with an open sub-path
+					sig = "raster-fillrule-positive-negative-open-subpath"
+				case len(s.NZ) > 0 && s.NZ[y][x] != code && pixelOK(h, s.NZ[y][x], got, sp):
+					// the pixel is what the frame demands when every rule is read as NonZero
+					sig = "raster-fillrule-ignored:rules-differ-on-pixel"
 				case code == 0:
 					sig = "raster-pixel:outside-painted"
 				case got[3] == 0:
